@@ -6,7 +6,10 @@ import subprocess
 
 VERIF = os.path.dirname(os.path.dirname(os.path.abspath(__file__)))
 REPO = os.environ.get('VERIF_REPO', '/repo')
-CACHE = os.path.join(VERIF, '.cache')
+import hashlib
+_ROOT = os.path.join(VERIF, '.cache')
+# one build cache per repository tree (VERIF_REPO), so that concurrent runs against different trees never share binaries
+CACHE = _ROOT if os.path.realpath(REPO) == '/repo' else os.path.join(_ROOT, 'tree_' + hashlib.sha1(os.path.realpath(REPO).encode()).hexdigest()[:10])
 ENV = dict(os.environ, CARGO_NET_OFFLINE='true')
 
 _built = {}
